@@ -234,8 +234,60 @@ def _nonneg(r):
     return a is not None and (a.startswith('sqrt(') or a.startswith('abs('))
 
 
+def _proj_segment_cases(ctx):
+    """proj_segment interpreted on segments of every non-vertical direction (both orders of the end points, horizontal included) and
+    queries projecting before the first end, exactly on it, inside, exactly on the second end and beyond it, on the carrier line and on
+    both sides of it: the answer is the nearest point of the closed segment with its distance.  (Vertical segments: recorded finding C20.F.)"""
+    import math
+    from .. import absint
+    f = ctx.prog.func(GEO + '.proj_segment')
+    run = orders.make_func(f.node, absint.funcs(ctx, GEO, {}))
+    bad = []
+    n = 0
+    for (ax, ay), (dx, dy) in itertools.product(((1.0, 2.0), (-3.0, 0.5)), ((4, 0), (-4, 0), (4, 4), (-4, 4), (4, -4), (-4, -4), (3, 1), (-2, 5), (1, -6), (8, 0.5))):
+        bx, by = ax + dx, ay + dy
+        L = math.hypot(dx, dy)
+        ux, uy = dx / L, dy / L
+        for t, off in itertools.product((-0.5, 0.0, 0.25, 0.5, 1.0, 1.5), (0.0, 1.5, -2.0)):
+            qx, qy = ax + t * dx - off * uy, ay + t * dy + off * ux
+            tc = max(0.0, min(1.0, t))
+            wx, wy = ax + tc * dx, ay + tc * dy
+            wd = math.hypot(qx - wx, qy - wy)
+            n += 1
+            try:
+                got = run([ax, ay, bx, by], qx, qy)
+            except orders.Unsupported as ex:
+                raise shape_error('proj_segment not interpretable: %s' % ex, f.loc())
+            except (ZeroDivisionError, IndexError, TypeError, ValueError, orders.Raised) as ex:
+                got = '%s: %s' % (type(ex).__name__, ex)
+            ok = isinstance(got, (tuple, list)) and len(got) == 3 and all(isinstance(v, (int, float)) for v in got) and \
+                abs(got[0] - wd) <= 1e-9 * max(1.0, wd) and math.hypot(got[1] - wx, got[2] - wy) <= 1e-9 * max(1.0, L)
+            if not ok and len(bad) < 3:
+                bad.append({'segment': [ax, ay, bx, by], 'query': [qx, qy], 'position of the foot along the segment (0 = first end, 1 = second end)': t,
+                            'returned (distance, x, y)': list(got) if isinstance(got, (tuple, list)) else got, 'nearest point of the closed segment': [wx, wy], 'its distance': wd})
+    return f, bad, n
+
+
 def rule_E(ctx):
-    """C20.E inclusion test is a closed interval in both orders, for x and y (decided on the return paths, whatever their syntax)"""
+    """C20.E inclusion test is a closed interval in both orders, for x and y: decided on the return paths of proj_segment when they
+    have the shape the symbolic walk understands, and otherwise (helpers, other control flow) by interpreting proj_segment on segments
+    of every direction with the foot before / on / between / on / beyond the end points"""
+    from ..loader import AnalysisError
+    why = None
+    try:
+        _rule_E_paths(ctx)
+    except AnalysisError as e:
+        if e.kind != 'shape':
+            raise
+        why = e.msg
+    f, bad, n = _proj_segment_cases(ctx)
+    if why is not None:
+        ctx.note('C20.E', 'the return paths of proj_segment are not in the shape the symbolic walk reads (%s): decided by interpretation on %d cases' % (why, n))
+    ctx.check(not bad, 'C20.E', f, 'proj_segment answers the nearest point of the closed segment (foot inside or on an end point: the foot; otherwise the nearer end), '
+              'both orders of the end points, horizontal segments included, on %d interpreted cases' % n, witness={'counter-examples': bad}, node=f.node, key='inclusion-cases')
+
+
+def _rule_E_paths(ctx):
     from .c03 import cond_eval
     f = ctx.prog.func(GEO + '.proj_segment')
     w = Walker(f, loop_mode='skip', inline={'cartesienne': ctx.prog.func(GEO + '.cartesienne')})
